@@ -105,6 +105,7 @@ class ExecMixin:
                 sv = self.typed(st, t, ty)
                 st.assume(z3.Implies(smt.is_ref(t), Val.r(t) < st.alloc))
                 st.locals[k[1:]] = sv
+                self.free_env = dict(getattr(self, "free_env", {}), **{k[1:]: sv})
         for g in self.con.ghost.get("counters", ()):
             st.locals["ghost_" + g] = sv_int(0)
         if self.con.exact_self_class and "self" in st.locals:
